@@ -13,3 +13,4 @@ import TlxVerif.Props.C08
 #print axioms TlxVerif.C08.model_sample_sort_determined
 #print axioms TlxVerif.C08.refinement_correct
 #print axioms TlxVerif.C08.refinement_correct_lists
+#print axioms TlxVerif.C08.selection_model_correct
